@@ -140,3 +140,25 @@ def tuple_list(specname, fields):
             return SList(spec, n=IntVal(0), a=fresh(name + '_a', z3.ArraySort(I, spec.zsort())), name=name)
         return SList(spec, name=name)
     return mk
+
+
+def history(tmin_name='tmin'):
+    """node_history = defaultdict(lambda: ([tmin], ['S']))"""
+    from ..pyvc.values import SHistory
+
+    def mk(run, name, empty=False, default_value=None, **kw):
+        tmin = run.cur_env[tmin_name]
+        if empty:
+            # the declared default must be what the code's lambda builds: ([tmin], ['S'])
+            ok = (isinstance(default_value, tuple) and len(default_value) == 2 and all(isinstance(x, SList) for x in default_value))
+            if ok:
+                a, b = default_value
+                ok = (z3.is_true(z3.simplify(a.n == 1)) and z3.is_true(z3.simplify(b.n == 1))
+                      and z3.is_true(z3.simplify(a.a[0] == tmin)) and z3.is_true(z3.simplify(b.a[0] == so.S['status_const']['S'])))
+            if not ok:
+                from ..pyvc.engine import Unbindable
+                raise Unbindable('the default entry of node_history is not ([tmin], [\'S\'])')
+            return SHistory.empty(tmin, name)
+        h = SHistory(tmin, name)
+        return h
+    return mk
